@@ -1,9 +1,20 @@
 import ExaModel.Driver.Json
-import ExaModel.Driver.Loop
 open Exa.Driver
 
-def main : IO Unit :=
-  runDriver () (fun st line =>
-    match words line with
-    | "json" :: ws => jsonLine st ws
-    | _ => (st, "bad-op"))
+/-- Same loop as `Exa.Driver.runDriver`, flushing after every answer: the C13 harness keeps one
+    driver process for the whole run and reads each answer before it sends the next batch. -/
+partial def jsonLoop (h out : IO.FS.Stream) : IO Unit := do
+  let line ← h.getLine
+  if line.isEmpty then return ()
+  let o := match words (line.trimAscii.toString) with
+    | "json" :: ws => (jsonLine () ws).2
+    | _ => "bad-op"
+  out.putStrLn o
+  out.flush
+  jsonLoop h out
+
+def main : IO Unit := do
+  let stdin ← IO.getStdin
+  let stdout ← IO.getStdout
+  jsonLoop stdin stdout
+  stdout.flush
